@@ -252,7 +252,7 @@ fn rewrite_text(rng: &mut Rng, v: &Value, out: &mut String) {
 /// change one object somewhere inside a (canonical) value through the public object API: replace the value of an existing
 /// key by a non-canonical number (insert, insert_front, get_mut_or_insert_with, iter_mut, get_mut), or push a new member
 /// that sorts first; keys stay unique
-fn mutate_in_place(rng: &mut Rng, v: &mut Value, heavy: bool) -> bool {
+fn mutate_in_place(rng: &mut Rng, v: &mut Value, heavy: bool, route: usize) -> bool {
 	match v {
 		Value::Array(a) => {
 			let n = a.len();
@@ -260,19 +260,19 @@ fn mutate_in_place(rng: &mut Rng, v: &mut Value, heavy: bool) -> bool {
 				return false;
 			}
 			let i = rng.below(n);
-			mutate_in_place(rng, &mut a[i], heavy)
+			mutate_in_place(rng, &mut a[i], heavy, route)
 		}
 		Value::Object(o) => {
 			if o.is_empty() {
 				return false;
 			}
 			let i = rng.below(o.len());
-			if rng.chance(1, 3) && mutate_in_place(rng, &mut o.iter_mut().nth(i).unwrap().1, heavy) {
+			if rng.chance(1, 3) && mutate_in_place(rng, &mut o.iter_mut().nth(i).unwrap().1, heavy, route) {
 				return true;
 			}
 			let key = o.entries()[i].key.clone();
 			let fresh = num(*rng.pick(&["1.0", "2E0", "0.5e1", "100e-2", "1E2", "-0.0", "0.10"]));
-			match rng.below(6) {
+			match route % 6 {
 				0 => {
 					let _ = o.insert(key, fresh).map(|r| r.count());
 				}
@@ -372,9 +372,16 @@ pub fn record(args: &Args) {
 		// The canonical value is then CHANGED in place through the object API and canonicalized again (the same instance:
 		// whatever it remembers from the first call must not matter); recorded as one more `canon` event whose input is the
 		// changed value.
-		if r.is_ok() && i % 3 == 1 {
+		// EVERY route of the object API at the same place of the same value (the place is drawn once).
+		for route in 0..if r.is_ok() && i % 3 == 1 { 6 } else { 0 } {
 			let mut m = c.clone();
-			let changed = mutate_in_place(&mut rng, &mut m, heavy);
+			let mut place = Rng(rng.0);
+			if route == 5 {
+				// the last route consumes the draws
+				place = Rng(rng.0);
+				let _ = mutate_in_place(&mut rng, &mut c.clone(), heavy, route);
+			}
+			let changed = mutate_in_place(&mut place, &mut m, heavy, route);
 			let unique = |v: &Value| {
 				// by a scan of the entries (not through the key index, which is what is under test)
 				fn ok(v: &Value) -> bool {
